@@ -44,6 +44,15 @@ class FiniteAutomaton:
         self._start_state = set()
         self._final_states = set()
 
+    def _register_transition_function(self):
+        """ Registers the states and the symbols of the transition function \
+        given to the constructor, as add_transition does """
+        for s_from, symb_by, s_to in self._transition_function.get_edges():
+            self._states.add(s_from)
+            self._states.add(s_to)
+            if symb_by != Epsilon():
+                self._input_symbols.add(symb_by)
+
     def add_transition(self, s_from: Any, symb_by: Any,
                        s_to: Any) -> int:
         """ Adds a transition to the nfa
